@@ -31,8 +31,10 @@ Failed(e) ==
   \cup (IF ~e.dry /\ e.exit = 0 /\ ~noop /\ e.sent # Cardinality(tr) THEN {"C14"} ELSE {})         \* only what changed is sent
   \cup (IF \E p \in Dom(e.names) : ExcludedDef(e.names[p], e.pats) /\ ~SameExact(e.dst2[p], e.dst[p]) THEN {"C15"} ELSE {})
   \cup (IF ~e.del /\ (\E p \in Dom(e.names) : e.dst[p] # Absent /\ e.dst2[p] = Absent) THEN {"C15"} ELSE {})
-  \cup (IF e.dry /\ ~(e.dst2 = e.dst /\ e.src2 = e.src /\ e.staging = 0 /\ e.exit = 0) THEN {"C15"} ELSE {})
-  \cup (IF e.dry /\ ~ShortCircuit(e.src, e.del) /\ ~(e.printed_send = AscSeq(tr) /\ e.printed_delete = AscSeq(de)) THEN {"C15"} ELSE {})
+  \* (e.unsendable: a remote direction and a source name that is not UTF-8 - the run, dry or not, has to refuse or report
+  \*  that file; what it prints for a name it cannot spell is not compared)
+  \cup (IF e.dry /\ ~(e.dst2 = e.dst /\ e.src2 = e.src /\ e.staging = 0 /\ (e.exit = 0 \/ e.unsendable)) THEN {"C15"} ELSE {})
+  \cup (IF e.dry /\ ~e.unsendable /\ ~ShortCircuit(e.src, e.del) /\ ~(e.printed_send = AscSeq(tr) /\ e.printed_delete = AscSeq(de)) THEN {"C15"} ELSE {})
 
 Conform(e) ==
   LET tr == Transfer(e.names, e.src, e.dst, e.pats)
